@@ -391,9 +391,11 @@ where
 
             // Nothing is happening. We may be the first to start initializing.
             let attempt_signal = Arc::new(ManualResetEvent::new(EventState::Unset));
-            let attempt = RegionalValue::<T>::Initializing(Arc::clone(&attempt_signal));
+            let attempt = Some(Arc::new(RegionalValue::<T>::Initializing(Arc::clone(
+                &attempt_signal,
+            ))));
 
-            let previous_value = self.value.compare_and_swap(reader, Some(Arc::new(attempt)));
+            let previous_value = self.value.compare_and_swap(reader, attempt.clone());
 
             if !previous_value.is_none() {
                 // Someone raced ahead of us. Re-enter loop.
@@ -402,17 +404,22 @@ where
 
             // We must ensure that if initialization panics, we reset the state
             // and signal any waiting threads to prevent them from waiting forever.
+            //
+            // From here on we only ever replace our own "initializing" marker: a `set()` may
+            // complete while the initializer is running and its value must not be overwritten.
             let cleanup_signal = Arc::clone(&attempt_signal);
             let cleanup_self = self; // Create a reference for the cleanup
+            let cleanup_attempt = attempt.clone();
             let cleanup_guard = scopeguard::guard((), move |()| {
                 // If we are still in panic mode when this guard executes, reset the
                 // initializing state to None and signal waiters so they can retry.
-                cleanup_self.value.store(None);
+                cleanup_self.value.compare_and_swap(&cleanup_attempt, None);
                 cleanup_signal.set();
             });
 
             let new_value = RegionalValue::Ready(initializer());
-            self.value.store(Some(Arc::new(new_value)));
+            self.value
+                .compare_and_swap(&attempt, Some(Arc::new(new_value)));
 
             // We are done initializing. Notify all waiters that they can continue.
             attempt_signal.set();
